@@ -292,6 +292,22 @@ def fileop_cases(draw):
                 if mode == 'sorted':
                     rows = sorted(rows)
             spec['sources'].append({'file': f, 'rows': rows})
+        # further selections that go back to a file already used: the same matrix again, or the other matrix of that
+        # file (X when the first selection read a layer, a layer when it read X)
+        for k, src in enumerate(spec['sources']):
+            src['id'] = k
+        if draw(st.booleans()):
+            base = list(spec['sources'])
+            for _ in range(draw(st.integers(1, 2))):
+                j = draw(st.integers(0, len(base) - 1))
+                fj = base[j]['file']
+                nr = len(fj['x'])
+                pk = {'reuse': j, 'rows': draw(st.lists(st.integers(0, nr - 1), min_size=1, max_size=nr, unique=True)),
+                      'other_layer': draw(st.booleans())}
+                if pk['other_layer'] and 'alt_x' not in base[j]:
+                    base[j]['alt_x'] = draw(small_dense(n_rows=nr, n_cols=nc))
+                    base[j]['alt_enc'] = draw(st.sampled_from(['csr', 'csc', 'dense']))
+                spec['sources'].insert(draw(st.integers(j + 1, len(spec['sources']))), pk)
         spec['dst_sparse'] = draw(st.booleans())
         spec['compression'] = draw(st.booleans())
     elif op == 'layer2x':
